@@ -28,6 +28,7 @@ type C16Plan struct {
 	// xpoa: validator-set changes made on chain (editValidates transactions in real blocks) and the
 	// life of the receiving node around them; empty: the configured list stays in force
 	VC []C16Ev
+	Restarts []int `json:"restarts,omitempty"` // acc-pow / acc-tdpos / acc-single: the receiver is re-opened from its disk before these steps
 }
 
 // C16Ev is one event of an xpoa run with on-chain validator changes.
@@ -162,6 +163,13 @@ func GenC16Plan(rt *rapid.T, tier string) *C16Plan {
 		n := rapid.IntRange(8, 64).Draw(rt, "ncompact")
 		for i := 0; i < n; i++ {
 			p.Compacts = append(p.Compacts, rapid.Uint32().Draw(rt, "compact"))
+		}
+	}
+	// receiver restarts in the other acceptance modes (drawn after the steps; smallest draw: none)
+	if p.Mode == "acc-pow" || p.Mode == "acc-tdpos" || p.Mode == "acc-single" {
+		n := int(c16Pick(rt, "restarts", []int64{0, 1, 1, 2, 3}))
+		for i := 0; i < n && len(p.Steps) > 0; i++ {
+			p.Restarts = append(p.Restarts, rapid.IntRange(0, len(p.Steps)-1).Draw(rt, "restart-at"))
 		}
 	}
 	// on-chain validator changes (xpoa); drawn last, the smallest draws mean "no change"
